@@ -160,7 +160,9 @@ def run_check_locked(P, tier, seed, replay=None, only_tie=None):
         params = core.gen_params()
         coverage["params_sha256"] = core.sha(params)[:16]
         # 3. prove
-        bad = core.forbidden_scan()
+        scan_set = core.deps_closure(list(P.PROP_FILES) + ['extract/' + t.model_extract for t in P.TIES])
+        bad = core.forbidden_scan(set(scan_set))
+        coverage['coq_files_in_scope'] = scan_set
         targets = [f[:-2] + ".vo" for f in P.PROP_FILES]
         ok, log, mdt = core.coq_make(targets)
         pr = core.coq_props(pid, P.PROP_FILES) if True else None
